@@ -163,14 +163,14 @@ Section Leaves.
     - injection H as ->. reflexivity.
     - injection H as -> Hh. apply sha_inj in Hh. subst. reflexivity.
     - injection H as -> -> Hh. apply (map_inj _ _ sha sha_inj) in Hh. subst. reflexivity.
-    - injection H as -> -> ->. reflexivity.
     - injection H as -> -> -> ->. reflexivity.
-    - injection H as -> -> -> ->. reflexivity.
+    - injection H as -> -> -> -> ->. reflexivity.
+    - injection H as -> -> -> -> ->. reflexivity.
     - assert (proj_key digest sha p = proj_key digest sha p0) as Hp by congruence.
       apply proj_key_inj in Hp. subst. reflexivity.
     - assert (map (proj_key digest sha) ps = map (proj_key digest sha) ps0) as Hp by congruence.
       apply (map_inj _ _ _ proj_key_inj) in Hp. subst. reflexivity.
-    - injection H as -> -> -> -> ->. reflexivity.
+    - injection H as -> -> -> -> -> ->. reflexivity.
     - injection H as -> ->. reflexivity.
   Qed.
 
@@ -237,8 +237,8 @@ End Leaves.
 (* ---------------------------------------------------------------------------------- *)
 (* Function-evaluation nodes: the collisions of the key before the repair                *)
 (* ---------------------------------------------------------------------------------- *)
-Definition wit_x : tree leaf := Leaf (LVar "x" 0 (-1) (-1)).
-Definition wit_y : tree leaf := Leaf (LVar "y" 0 (-1) (-1)).
+Definition wit_x : tree leaf := Leaf (LVar "x" 0 0 (-1) (-1)).
+Definition wit_y : tree leaf := Leaf (LVar "y" 0 0 (-1) (-1)).
 
 (* the key construction before the repair: neither function nor arity *)
 Fixpoint old_key {L T} (leafkey : L -> T) (optok : string -> T) (t : tree L) : list T :=
